@@ -8,12 +8,29 @@ the real schedulers make (five pass groups, tie-break seeds, all forced linear e
 own constraint set) is recorded and TLC evaluates Ready(b) on each call -- independent of whether
 the values happen to come out right for the sampled inputs.  Explicit U<U constraints (extra,
 inverting) are part of the corpus; constraint cycles that carry no signal must make every scheduler
-raise UpblkCyclicError.
+raise UpblkCyclicError.  CL designs: spec/MethodOrder.tla gives the method-level constraints
+M(x) < M(y), M(x) == M(y), U(b) < M(x), M(x) < U(b) an event-level meaning (block starts / ends, method
+invocations by a caller), derives the block-level order from it and TLC shows over all interleavings
+that the two coincide; every block call AND method invocation of generated CL components (update_once
+blocks calling method ports / non-blocking interfaces of children and grandchildren through method
+nets, pass-through methods, == classes, chains, mixed with signals) is recorded under the five pass
+groups, tie-break seeds, forced linear extensions of pymtl3's own constraint set and the open-loop
+scheduler (top-level methods called by the test bench) and validated by spec/MethodOrderTrace.tla;
+TLC's linear extensions of the specification's order are forced on the real simulator and must give
+the same observable state wherever the constraints order every block touching it; signal-free
+constraint cycles and cycles through update_once blocks must be refused by every scheduler.
 
-NOTE: footprints come from the design descriptor (never from pymtl3's upblk_reads/upblk_writes).
-Not covered: method-level constraints M(x) < M(y) / U(b) < M(x) of CL designs and OpenLoopCLPass (the
-kernel specification models signal-carried RTL dependencies only).
+NOTE: footprints, the methods a block invokes and the resolution of method nets come from the design
+descriptor (never from pymtl3's upblk_reads / upblk_writes / upblk_calls).  CL part: a method that
+calls a method declares M(outer) == M(inner) (pymtl3's convention); non-blocking methods are always
+ready; blocking (greenlet) interfaces are not generated; two blocks related only through methods that
+no block invokes are left unordered; OpenLoopCLPass is driven as GenDAGPass + WrapGreenletPass +
+OpenLoopCLPass (AutoTickSimPass itself locks the simulation twice and fails on every design) and may
+refuse a cyclic design with any exception; its schedule cannot be overwritten, so forced schedules
+cover the closed-loop simulator only.  Spec modules: SimKernel, SimKernelTrace, DL (shared),
+MethodOrder, MethodOrderTrace; helpers kernel.py, kernel_check.py, designgen.py (shared), c02_cl.py.
 """
+import c02_cl
 import kernel
 import kernel_check as kc
 from common import scratch
@@ -42,4 +59,7 @@ def run(res, tier):
     res.note("designs", len(c.designs))
     res.note("rule", "a case = (design, scheduler | forced linear extension); the grid enumerates writer shape x "
              "reader shape x {block, net} x {same component, child}; explicit family = inverted / extra / cyclic U<U")
-    res.assume("generated designs; method constraints of CL designs are not modelled")
+    res.assume("generated designs")
+    # ---- CL designs: method-level constraints, update_once, method nets, open loop
+    c02_cl.run_phase(res, tier)
+    res.assume("CL: a method that calls a method declares M(outer) == M(inner); non-blocking methods always ready")
